@@ -57,7 +57,17 @@ func c04Frames(r *core.Rand, n int, maxBody int) [][]byte {
 		if r.Chance(1, 4) {
 			l = 0
 		}
-		fs = append(fs, hookFrame(r.Bool(), core.Pick(r, ids), r.U16(), false, 0, 0, c04Body(r, r.Intn(4), l)))
+		v19 := r.Bool()
+		if r.Chance(1, 4) {
+			// encryption / reserved bits of the property word set (the parser must not read them as part of the length)
+			bcd := hookBCD13
+			if v19 {
+				bcd = hookBCD19
+			}
+			fs = append(fs, attrFrame(v19, bcd, core.Pick(r, ids), r.U16(), c04Body(r, r.Intn(4), l), core.Pick(r, []byte{0x04, 0x08, 0x10, 0x1c, 0x80, 0x9c})))
+			continue
+		}
+		fs = append(fs, hookFrame(v19, core.Pick(r, ids), r.U16(), false, 0, 0, c04Body(r, r.Intn(4), l)))
 	}
 	return fs
 }
